@@ -13,6 +13,20 @@ use margined_perp::margined_engine::Side;
 use margined_perp::margined_vamm::Direction;
 use symrt::{prove_d, VAR_MAX};
 
+thread_local! {
+    /// the vAMM-alone deployment charges fees (toll 1 %, spread 1 %): limits are about the amounts
+    /// exchanged with the curve, whatever the fee configuration
+    static FEES: std::cell::Cell<bool> = std::cell::Cell::new(false);
+}
+
+fn with_fees(f: impl Fn()) -> impl Fn() {
+    move || {
+        FEES.with(|c| c.set(true));
+        f();
+        FEES.with(|c| c.set(false));
+    }
+}
+
 fn vamm_swap(kind: Kind, dir: Direction, dec: u8, fluct: bool) -> impl Fn() {
     vamm_swap_h(kind, dir, dec, fluct, false)
 }
@@ -23,6 +37,9 @@ fn vamm_swap_h(kind: Kind, dir: Direction, dec: u8, fluct: bool, history: bool) 
     move || {
         let d = pow10(dec);
         let mut w = vamm_only(dec, fluct, VAR_MAX);
+        if FEES.with(|c| c.get()) {
+            assert!(w.update_vamm(0, None, None, Some(Uint128::new(d / 100)), Some(Uint128::new(d / 100)), None, None).ok);
+        }
         if history {
             symrt::set_full(false);
             w.next_block(60);
@@ -285,6 +302,7 @@ pub fn scenarios(_seed: u64) -> Vec<Scenario> {
     for (k, dir, n) in [(Input, AddToAmm, "in.add"), (Input, RemoveFromAmm, "in.rem"), (Output, AddToAmm, "out.add"), (Output, RemoveFromAmm, "out.rem")] {
         v.push(sc("C17", Tier::Quick, &format!("c17.vamm.{}", n), d1, 600, 120, vamm_swap(k, dir.clone(), 9, false)));
         v.push(sc("C17", Tier::Quick, &format!("c17.vamm.{}.after-history", n), "as above after two earlier swaps in earlier blocks inside the TWAP window (reserve snapshots differ from the current reserves)", 600, 120, vamm_swap_h(k, dir.clone(), 9, false, true)));
+        v.push(sc("C17", Tier::Quick, &format!("c17.vamm.{}.fees", n), "as above on a vAMM configured with a 1 % toll and a 1 % spread", 600, 120, with_fees(vamm_swap(k, dir.clone(), 9, false))));
         v.push(sc("C17", Tier::Thorough, &format!("c17.vamm.{}.d6", n), d1, 600, 300, vamm_swap(k, dir.clone(), 6, false)));
         v.push(sc("C17", Tier::Thorough, &format!("c17.vamm.{}.fluct", n), "as above with a symbolic fluctuation limit", 1500, 600, vamm_swap(k, dir, 9, true)));
     }
